@@ -51,7 +51,8 @@ def _resolve_timeline(
     capture_timeline: bool | RetryTimeline | None,
     on_metric: MetricHook | None,
 ) -> tuple[RetryTimeline | None, MetricHook | None]:
-    if not capture_timeline:
+    if capture_timeline is None or capture_timeline is False:
+        # Not a truth test: a caller's RetryTimeline subclass may be sized (empty, hence falsy).
         return None, on_metric
 
     timeline = capture_timeline if isinstance(capture_timeline, RetryTimeline) else RetryTimeline()
